@@ -28,16 +28,23 @@ Theorem C17_idle_stays_idle : forall s l, ph s = Idle -> l <> LStart -> ph (rcst
 Proof. exact idle_stays_idle. Qed.
 Print Assumptions C17_idle_stays_idle.
 
-Theorem C17_stop_while_dialing_partial : forall s k d rnd, ph s = Waiting k d -> token s = false ->
+Theorem C17_stop_while_dialing_then_fail : forall s k d rnd, ph s = Waiting k d -> token s = false ->
   ph (rcstep (LDialFail rnd) (rcstep LStop s)) = Idle.
 Proof. exact stop_while_dialing_then_fail. Qed.
-Print Assumptions C17_stop_while_dialing_partial.
+Print Assumptions C17_stop_while_dialing_then_fail.
 
-(** ... but "never" is false of the faithful model when that dial succeeds: the client stays connected (finding F26) *)
-Theorem C17_never_reconnects_after_stop_refuted_F26 : forall s k d, ph s = Waiting k d -> token s = false ->
-  ph (rcstep LDialOk (rcstep LStop s)) = Up.
-Proof. exact stop_while_dialing_then_ok_refuted. Qed.
-Print Assumptions C17_never_reconnects_after_stop_refuted_F26.
+(** ... and when it succeeds the fresh connection is dropped without any notification (since the repair of F26) *)
+Theorem C17_stop_while_dialing_then_ok : forall s k d, ph s = Waiting k d ->
+  ph (rcstep LDialOk (rcstep LStop s)) = Idle /\
+  htr (rcstep LDialOk (rcstep LStop s)) = HDial k d :: htr s.
+Proof. exact stop_while_dialing_then_ok. Qed.
+Print Assumptions C17_stop_while_dialing_then_ok.
+
+(** "after Stop it never reconnects", for every sequence of losses, failing and succeeding dials and further Stops: from a
+    Stop on, until the next Start, the client is never connected *)
+Theorem C17_never_connected_after_stop : forall ls s, ~ In LStart ls -> ph (rcrun ls (rcstep LStop s)) <> Up.
+Proof. exact never_connected_after_stop. Qed.
+Print Assumptions C17_never_connected_after_stop.
 
 (** keep-alive bookkeeping: a peer silent for [wait] is disconnected by then; one that shows life more often never is *)
 Theorem C17_dead_peer_detected : forall s dt, alive s = true -> wait s > 0 -> 0 <= tnow s -> deadline s = tnow s + wait s ->
